@@ -67,7 +67,7 @@ PROPS = {
             "rename is checked by the harness: the returned edits are applied (UTF-16 aware) to the texts of the scope and compared with the texts in which exactly the occurrences are renamed",
         ],
         "assumptions": ["occurrences are compared by (file, start line, start character); payees by (file, line): range ends and payee columns are C08's subject"],
-        "explanation": "C09_references_exact for all journal sets; own-path lemma (partial); refutation from an included file; tie on locations and rename edits; oracle: occurrence set over the scope the property names + applied rename",
+        "explanation": "C09_references_exact for all journal sets; own-path theorems for requests from any file of the tree; tie on locations and rename edits; oracle: occurrence set over the scope the property names + applied rename",
     },
     "C16": {
         "n": {"quick": 600, "thorough": 15000},
